@@ -4,6 +4,7 @@
 -/
 import Cctz.Model.Loader
 import Cctz.Proofs.LoaderInv
+import Cctz.Proofs.LoNames
 
 namespace Cctz.C19
 open Cctz Cctz.Bytes Cctz.Loader
@@ -41,5 +42,112 @@ def internal_names_statement : Prop :=
 def failure_is_utc_statement : Prop :=
   ∀ (w : World) (names : List Name) (sched : List Nat) (i : Nat) (t : Thread) (id : Ident),
     (run w (initState names) sched).threads[i]? = some t → t.pc = .done false id → id = .utc
+
+/-! ## proofs -/
+
+theorem absolute : absolute_statement := by
+  intro rest tzdir
+  constructor
+  · unfold openPath
+    simp only [ofString_file]
+    have h1 : ¬ List.take 5 (47 :: rest) = [102, 105, 108, 101, 58] := by
+      intro e; simp [List.take] at e
+    simp
+  · unfold openPath
+    simp only [ofString_file]
+    simp
+
+theorem relative : relative_statement := by
+  intro name dir h1 h2
+  have hc : ∀ tz : Option Bytes, openPath name tz =
+      (match tz with
+        | some d => if cstr d ≠ [] then cstr d else ofString "/usr/share/zoneinfo"
+        | none => ofString "/usr/share/zoneinfo") ++ [47] ++ name := by
+    intro tz
+    unfold openPath
+    simp only [if_neg h2, List.drop_zero]
+    rw [if_pos (Or.inr h1)]
+    cases tz <;> rfl
+  refine ⟨?_, ?_, ?_⟩
+  · rw [hc]; simp
+  · rw [hc]; simp [cstr]
+  · intro hd hnz
+    rw [hc]
+    have : dir ≠ [] := by intro e; subst e; exact hd rfl
+    simp only [cstr_of_nz dir hnz, ne_eq, this, not_false_eq_true, if_true]
+    simp
+
+/-- (`local` is a Lean keyword: the name needs guillemets; `local_resolution` below is an alias) -/
+theorem «local» : local_statement := by
+  have c1 : cstr (ofString "localtime") = ofString "localtime" := by
+    rw [ofString_localtime]; decide
+  have c2 : cstr (ofString ":localtime") = ofString ":localtime" := by
+    rw [ofString_colon_localtime]; decide
+  have key : ∀ lt, localZoneName (some (ofString "localtime")) lt =
+      match lt with
+      | some l => cstr l
+      | none => ofString "/etc/localtime" := by
+    intro lt
+    unfold localZoneName
+    simp only [c1]
+    have : ¬ (ofString "localtime").headD 0 = 58 := by rw [ofString_localtime]; decide
+    simp only [if_neg this, if_true]
+    cases lt <;> rfl
+  refine ⟨?_, ?_, ?_, ?_, ?_, ?_⟩
+  · intro lt
+    rw [key]
+    unfold localZoneName
+    have : (ofString ":localtime").headD 0 = 58 := by rw [ofString_colon_localtime]; decide
+    have d : (ofString ":localtime").drop 1 = ofString "localtime" := by
+      rw [ofString_colon_localtime, ofString_localtime]; rfl
+    simp only [if_pos this, d, if_true]
+    cases lt <;> rfl
+  · intro lt
+    rw [key]
+    unfold localZoneName
+    have : (ofString ":localtime").headD 0 = 58 := by rw [ofString_colon_localtime]; decide
+    have d : (ofString ":localtime").drop 1 = ofString "localtime" := by
+      rw [ofString_colon_localtime, ofString_localtime]; rfl
+    simp only [c2, if_pos this, d, if_true]
+    cases lt <;> rfl
+  · rw [key]
+  · intro p hp; rw [key]; exact cstr_of_nz p hp
+  · intro z hz h58 hne lt
+    unfold localZoneName
+    simp only [cstr_of_nz z hz, if_neg h58, if_neg hne]
+  · intro z hz hne lt
+    unfold localZoneName
+    have : cstr (58 :: z) = 58 :: z := by
+      apply cstr_of_nz
+      intro c hc
+      rcases List.mem_cons.mp hc with e | e
+      · subst e; decide
+      · exact hz c e
+    simp only [this, List.headD_cons, if_true, List.drop_succ_cons, List.drop_zero, if_neg hne]
+
+theorem local_resolution : local_statement := «local»
+
+theorem internal_names : internal_names_statement := by
+  intro w n hf
+  refine ⟨by simp [seqOk, hf], ?_⟩
+  intro names sched τ hm
+  have := ((inv_reach w names sched).log τ n hm).1
+  rw [hf] at this; cases this
+
+theorem failure_is_utc : failure_is_utc_statement := by
+  intro w names sched i t id h hp
+  have := (inv_reach w names sched).thr i t h
+  rw [hp] at this
+  rcases this with ⟨_, a, _⟩ | ⟨_, _, c⟩
+  · cases a
+  · cases id with
+    | utc => rfl
+    | impl g => cases c
+
+/-- the hypotheses of `relative` / `local` are satisfiable -/
+example : ([120] : Bytes).headD 0 ≠ 47 ∧ ([120] : Bytes).take 5 ≠ ofString "file:" ∧
+    ([47, 116] : Bytes).headD 0 ≠ 0 ∧ (∀ c ∈ ([47, 116] : Bytes), c ≠ 0) := by decide +kernel
+
+example : isFixedName (ofString "UTC") = true := by decide +kernel
 
 end Cctz.C19
